@@ -119,6 +119,18 @@ func makeStub(fn *ssa.Function, kind string) externalFn {
 	case "unsupported":
 		return func(fr *frame, args []value) value { panic(unsupported{"stubbed out: " + fn.String()}) }
 	}
+	if strings.HasPrefix(kind, "harness:") {
+		// the callee is replaced by a model function of the harness package
+		// (same parameters and results); natively the real callee runs
+		model := strings.TrimPrefix(kind, "harness:")
+		return func(fr *frame, args []value) value {
+			m := fr.i.lp.harnessPkg.Func(model)
+			if m == nil {
+				panic(unsupported{"stub " + kind + ": the harness package has no function " + model})
+			}
+			return call(fr.i, fr, token.NoPos, m, args)
+		}
+	}
 	panic("unknown stub kind " + kind)
 }
 
